@@ -302,3 +302,104 @@ func init() {
 		o.MinSites(1)
 	})
 }
+
+// inhibitRuleConstructionRule: the rule the inhibitor evaluates is the configured one: each side's matcher list is
+// exactly the legacy equality matchers, the legacy regexp matchers and the new-style matchers of that side, and the
+// equal set holds every configured label name.
+func inhibitRuleConstructionRule(o *Ob) {
+	e := o.E
+	fn := o.Fn("am/inhibit.NewInhibitRule")
+	cr := `&cr:am/config/common\.InhibitRule\.`
+	for _, side := range []string{"Source", "Target"} {
+		sts := e.StoresToField(fn, "am/inhibit.InhibitRule", side+"Matchers")
+		if !o.Check(len(sts) == 1, "matchers-store|"+side, "the rule's "+side+" matchers must be set once", fnFirst(fn)) {
+			continue
+		}
+		o.Site(sts[0], side+" matchers of the rule")
+		_, parts := e.AppendParts(sts[0].Val)
+		want := map[string]string{
+			"equality": `am/pkg/labels\.NewMatcher\(0, next\(range\(` + cr + side + `Match\)\)#1, next\(range\(` + cr + side + `Match\)\)#2\)#0`,
+			"regexp":   `am/pkg/labels\.NewMatcher\(2, next\(range\(` + cr + side + `MatchRE\)\)#1, \(\*regexp\.Regexp\)\.String\(next\(range\(` + cr + side + `MatchRE\)\)#2(\.Regexp)?\)\)#0`,
+			"matchers": cr + side + `Matchers`,
+		}
+		seen := map[string]bool{}
+		for _, p := range parts {
+			s := e.X(fn, p.V)
+			hit := ""
+			for k, re := range want {
+				if regexpMatch(re, s) && (k == "matchers") == p.Spread {
+					hit = k
+				}
+			}
+			if o.Check(hit != "", "matchers-part|"+side, "the "+side+" matchers of a rule can hold "+clip(s)+", which is not one of the configured "+side+" matchers", p.Call) {
+				seen[hit] = true
+				if l := e.LoopOf(p.Call); l != nil && hit != "matchers" {
+					o.Check(!loopBackWithout(o, l, IsInstr(p.Call), nil) && !leavesLoopAlive(e, l), "matchers-skip|"+side+"|"+hit, "a configured "+hit+" matcher can be left out", p.Call)
+				}
+			}
+		}
+		for k := range want {
+			o.Check(seen[k], "matchers-missing|"+side+"|"+k, "the configured "+side+" "+k+" matchers are not part of the rule", sts[0])
+		}
+	}
+	sts := e.StoresToField(fn, "am/inhibit.InhibitRule", "Equal")
+	if o.Check(len(sts) == 1, "equal-store", "the rule's equal labels must be set once", fnFirst(fn)) {
+		mv := e.X(fn, sts[0].Val)
+		n := 0
+		for _, in := range AllInstrs(fn) {
+			if m, ok := in.(*ssa.MapUpdate); ok && e.X(fn, m.Map) == mv {
+				n++
+				k := e.X(fn, m.Key)
+				o.Check(regexpMatch(`(conv:model\.LabelName\()?`+cr+`Equal\[i\]\)?`, k), "equal-key", "the equal set must hold the configured names, holds "+k, m)
+				if l := e.LoopOf(m); o.Check(l != nil, "equal-loop", "the equal set must be filled from all configured names", m) {
+					coll, _ := e.RangeOver(l)
+					o.Check(regexpMatch(cr+"Equal", coll) && len(e.EarlyExits(l)) == 0 && !loopBackWithout(o, l, IsInstr(m), nil), "equal-all", "a configured equal label can be left out", m)
+				}
+			}
+		}
+		o.Check(n == 1, "equal-fill", "the equal set is not filled from the configuration", sts[0])
+	}
+	// NewInhibitor builds one rule per configured rule
+	ni := o.Fn("am/inhibit.NewInhibitor")
+	c := o.One(e.Calls(ni, "am/inhibit.NewInhibitRule"), "rules", "NewInhibitor must build the rules", ni)
+	o.Check(e.Arg(c, 0) == "p1[i]", "rules-arg", "each rule must be built from the configured rule of the iteration, built from "+e.Arg(c, 0), c)
+	if l := e.LoopOf(c); o.Check(l != nil, "rules-loop", "rules must be built in a loop over the configuration", c) {
+		coll, _ := e.RangeOver(l)
+		o.Check(coll == "p1" && len(e.EarlyExits(l)) == 0 && !loopBackWithout(o, l, IsInstr(c), nil), "rules-all", "a configured inhibition rule can be left out", c)
+		// and kept: appended to the inhibitor's rule list in the same iteration
+		var keep ssa.Instruction
+		for _, st := range e.StoresToField(ni, "am/inhibit.Inhibitor", "rules") {
+			_, parts := e.AppendParts(st.Val)
+			for _, p := range parts {
+				if e.X(ni, p.V) == e.X(ni, c.(*ssa.Call)) {
+					keep = st
+				}
+			}
+		}
+		if o.Check(keep != nil, "rules-kept", "the rules built are not added to the inhibitor's rule list", c) {
+			o.Check(!loopBackWithout(o, l, IsInstr(keep), nil), "rules-kept-all", "a rule can be built without being added to the inhibitor's rule list", keep)
+		}
+	}
+}
+
+func init() {
+	reg("C03", "C03.16", "T8,T11", "the rules evaluated are the configured ones: each side's matchers = legacy equality + legacy regexp + new-style matchers of that side, equal set = all configured names, one rule per configured rule", func(o *Ob) {
+		inhibitRuleConstructionRule(o)
+		o.MinSites(2)
+	})
+}
+
+// leavesLoopAlive: the loop can be left early on a path that still reaches a return (an exit into panic does not count).
+func leavesLoopAlive(e *Eng, l *Loop) bool {
+	for _, ex := range e.EarlyExits(l) {
+		b := ex.Block()
+		for si, s := range b.Succs {
+			if !l.Blocks[s.Index] {
+				if len((&Walk{Fn: l.Fn}).FromEdge(b, si).Returns()) > 0 {
+					return true
+				}
+			}
+		}
+	}
+	return false
+}
